@@ -1,6 +1,6 @@
 """C20 - logger sections produce exactly the configured logging setup, once.
 
-Five exhaustively enumerated spaces (nothing is sampled):
+Six exhaustively enumerated spaces (nothing is sampled):
 
  (a) the logging_level datatype on every documented name x 4 letter cases,
      every integer -2..52, junk and non-canonical integer spellings;
@@ -17,8 +17,15 @@ Five exhaustively enumerated spaces (nothing is sampled):
      state (states/transitions) plus every sequence of the bound length with
      the registry model run in lock step.
 
+ (f) histories: every handler section of an alphabet (style x format text x
+     arbitrary-fields x formatter x dateformat) loaded in a fresh process alone,
+     then after / next to every other section of the alphabet: what a section
+     means must not depend on what was loaded before it; (fl) every ordered pair
+     of logger sections on one logging tree without a reset in between.
+
 Oracle: vz.ref.logmodel (level table, decision table, Python's own rendering of
-a format, registry model).
+a format, registry model); for (f) the differential relation "same section =>
+same outcome as in a fresh process".
 """
 import collections
 import gc
@@ -919,6 +926,10 @@ def ops_for(n):
     return [["F", j] for j in range(n)] + [["R"], ["C"]] + [["D", j] for j in range(n)]
 
 
+class SlotRefused(Exception):
+    pass
+
+
 class RegSys:
     """The implementation side of (e): n handler factories of one loaded
     configuration, driven by operations, observed after every operation."""
@@ -940,7 +951,8 @@ class RegSys:
     def _load(self):
         st, cfg = load(self.text)
         if st != "ok":
-            raise core.HarnessError("C20(e): slot configuration refused: %r" % (cfg,))
+            # a plain / rotating <logfile> with format %(message)s has to be accepted
+            raise SlotRefused(cfg)
         return list(cfg.handlers)
 
     def handler(self, j):
@@ -987,7 +999,10 @@ class RegSys:
             j = op[1]
             # drop the only strong reference: the factory (which memoises the
             # handler) is replaced by the same factory of a fresh load
-            self.factories[j] = self._load()[j]
+            try:
+                self.factories[j] = self._load()[j]
+            except SlotRefused as e:
+                return [("slot-configuration-refused", e.args[0], "accepted")]
             gc.collect()
             if self.model.drop(j):
                 if self.handler(j) is not None:
@@ -1053,7 +1068,10 @@ def run_sequence(env, kinds, ops, acc, count_traces=True):
     """-> (problems of the first failing step, index) or (None, None)"""
     env.begin()
     try:
-        s = RegSys(env, kinds)
+        try:
+            s = RegSys(env, kinds)
+        except SlotRefused as e:
+            return [("slot-configuration-refused", e.args[0], "accepted")], -1, None
         for i, op in enumerate(ops):
             bad = s.step(op)
             if count_traces:
@@ -1074,7 +1092,8 @@ def report_e(acc, kinds, ops, i, bad):
     what = bad[0][0]
     acc.violation("registry-" + what, {"part": "e", "slots": kinds, "ops": ops[:i + 1]},
                   [list(b[:2]) for b in bad], [[b[0], b[2]] for b in bad],
-                  tags={"kind": "registry", "what": what.split("-after-")[0], "op": ops[i][0], "part": "e"},
+                  tags={"kind": "registry", "what": what.split("-after-")[0],
+                        "op": ops[i][0] if i >= 0 else "load", "part": "e"},
                   size=len(ops[:i + 1]) * 100 + len(kinds))
 
 
@@ -1087,7 +1106,11 @@ def nontrivial_seq(ops):
 
 def shard_e_bfs(kinds, depth, env, acc):
     ops = ops_for(len(kinds))
-    bad, _, k0 = run_sequence(env, kinds, [], acc)
+    bad, i, k0 = run_sequence(env, kinds, [], acc)
+    if bad:
+        acc.cls("e:bfs-violation")
+        report_e(acc, kinds, [], i, bad)
+        return
     seen = {k0}
     frontier = collections.deque([[]])
     while frontier:
@@ -1154,11 +1177,656 @@ def e_bfs_configs(tier):
 
 
 # ----------------------------------------------------------------------------
+# (f) histories: what a section means must not depend on what the process loaded
+#     before it.
+#
+# Handler sections ("atoms") are (style, format, arbitrary-fields, formatter,
+# dateformat).  Every format TEXT of the alphabet is combined with EVERY style, so
+# two atoms may agree in any subset of the five attributes.
+#  * baseline(a): the outcome of section a when it is the first thing a fresh
+#    process loads (fresh = forked from a process that never loaded a
+#    configuration); held against Python's rendering like in (d).
+#  * placement "loads": for every section q a fresh process loads q and then, for
+#    every prefix (p) [thorough: also (p1, p2)] of the alphabet in order, the
+#    sections of the prefix and q again, each alone.  EVERY one of these loads has
+#    to equal the baseline of its section (so every ordered pair of sections occurs
+#    as two consecutive loads, in both roles).
+#  * placements "logger" / "top": for every q another fresh process loads, for
+#    every prefix, ONE configuration text with the prefix's sections and q as
+#    sibling handler sections: accepted iff each section's baseline is accepted,
+#    and then every handler has to look like its section's baseline.
+# The histories of one (q, placement) share their process, so a later one also has
+# the earlier ones behind it; a deviation is re-run on its own in yet another fresh
+# process to get a minimal replayable case.
+#
+# (fl) the same idea for logger sections: q's factory is called on a logging tree
+# on which p's factory has just been called (same logger, its child, its parent,
+# the root logger), without any reset in between.
+
+H_FIELDS = ("message", "nosuch")
+H_DATEFORMAT = "%H-%M-%S"
+H_STATIC = "static text"
+# exactly one of the three references is a field under each style
+H_ASCTIME = "%(asctime)s {asctime} ${asctime}"
+H_FORMATTERS = (None, "vz.harness.vzfmt.StylelessFormatter", "vz.harness.vzfmt.StyledFormatter")
+H_PLACEMENTS_QUICK = ("loads", "logger")
+H_PLACEMENTS = ("loads", "logger", "top")
+H_LOGGER_NAME = PREFIX + ".f"
+
+
+def h_formats_core():
+    """Each style's canonical reference to a known and to an unknown field."""
+    return [canon(s, f) for s in R.STYLES for f in H_FIELDS]
+
+
+def h_formats_mixed(full=True):
+    """A reference in the syntax of each of the three syntaxes, each to a known or
+    an unknown field: what it means differs from style to style.  full=False: at
+    most one of the three to the unknown field (still both cases for every style)."""
+    return ["%%(%s)s {%s} ${%s}" % t for t in itertools.product(H_FIELDS, repeat=3)
+            if full or t.count(H_FIELDS[1]) <= 1]
+
+
+def h_formats(full=True):
+    return h_formats_core() + h_formats_mixed(full) + [H_STATIC, H_ASCTIME]
+
+
+def h_atoms(level):
+    """level 'small' (prefixes of length 2), 'quick', 'thorough' -> list of atoms"""
+    out = []
+    if level == "small":
+        for style in R.STYLES:
+            for fmt in h_formats_core() + [H_STATIC]:
+                for arb in (False, True):
+                    out.append((style, fmt, arb, None, None))
+        return out
+    if level == "thorough":
+        for style in R.STYLES:
+            for fmt in h_formats():
+                for arb in (False, True):
+                    for fk in H_FORMATTERS:
+                        for df in (None, H_DATEFORMAT):
+                            out.append((style, fmt, arb, fk, df))
+        return out
+    for style in R.STYLES:
+        for fmt in h_formats(full=False):
+            for arb in (False, True):
+                out.append((style, fmt, arb, None, None))
+    for style in R.STYLES:
+        for arb in (False, True):
+            out.append((style, H_ASCTIME, arb, None, H_DATEFORMAT))
+    all_known = h_formats_mixed()[0]
+    for style in R.STYLES:
+        # (the formatter factories differ in what they validate: a field-less text too)
+        for fmt in (all_known, H_ASCTIME, H_STATIC):
+            for fk in H_FORMATTERS[1:]:
+                for df in (None, H_DATEFORMAT):
+                    out.append((style, fmt, False, fk, df))
+    return out
+
+
+def atom_dict(a):
+    return {"style": a[0], "format": a[1], "arbitrary": a[2], "formatter": a[3], "dateformat": a[4]}
+
+
+def atom_tuple(d):
+    return (d["style"], d["format"], d["arbitrary"], d["formatter"], d["dateformat"])
+
+
+def atom_text(env, a):
+    extra = []
+    if a[2]:
+        extra.append("arbitrary-fields true")
+    if a[3]:
+        extra.append("formatter " + a[3])
+    if a[4]:
+        extra.append("dateformat " + a[4])
+    return logfile_text(env, {"path": "STDOUT"}, fmt=a[1], style=a[0], extra=extra)
+
+
+def atoms_differ(p, q):
+    """Which attributes distinguish q from p (part of a violation's signature)."""
+    names = ("style", "format", "arbitrary", "formatter", "dateformat")
+    return "+".join(n for n, x, y in zip(names, p, q) if x != y) or "nothing"
+
+
+def observe_handler(h):
+    fm = h.formatter
+    try:
+        out = ("ok", h.format(R.make_record()))
+    except Exception as e:
+        out = ("raises", type(e).__name__)
+    return ("ok", type(fm).__name__, out)
+
+
+def okey(o):
+    """What of an observation has to be history-independent: the verdict and, when
+    accepted, formatter class and rendering (the class of a refusal is not fixed
+    by the statement)."""
+    return o[:1] if o[0] == "refused" else o
+
+
+def load_alone(env, a):
+    env.begin()
+    try:
+        st, cfg = load(atom_text(env, a))
+        if st == "refused":
+            return ("refused", "config-error" if cfg["family"] else cfg["class"])
+        try:
+            h = cfg.handlers[0]()
+        except Exception as e:
+            return ("build-raises", type(e).__name__)
+        env.track(h)
+        return observe_handler(h)
+    finally:
+        env.end()
+
+
+def load_siblings(env, atoms, placement):
+    """The atoms as sibling handler sections of ONE configuration text.
+    -> ('refused', cls) | ('build-raises', exc) | ('ok', [observation per handler])"""
+    secs = [atom_text(env, a) for a in atoms]
+    if placement == "logger":
+        text = "<logger>\n  name %s\n%s\n</logger>" % (H_LOGGER_NAME, "\n".join(secs))
+    else:
+        text = "\n".join(secs)
+    env.begin()
+    try:
+        st, cfg = load(text)
+        if st == "refused":
+            return ("refused", "config-error" if cfg["family"] else cfg["class"])
+        try:
+            if placement == "logger":
+                hs = list(cfg.loggers[0]().handlers)
+            else:
+                hs = [f() for f in cfg.handlers]
+        except Exception as e:
+            return ("build-raises", type(e).__name__)
+        for h in hs:
+            env.track(h)
+        return ("ok", [observe_handler(h) for h in hs])
+    finally:
+        env.end()
+
+
+def tup(x):
+    """JSON / pickle neutral form of an observation (nested tuples)."""
+    if isinstance(x, (list, tuple)):
+        return tuple(tup(i) for i in x)
+    return x
+
+
+def f_child_loads(env, seq, base):
+    """Runs in a fresh process: the sections of `seq` loaded alone, one after the
+    other.  -> (deviations [(i, observed, baseline)], Counter).  A deviation is
+    listed where a section's outcome LEAVES its baseline (its previous observation
+    in this process, if any, was still the baseline)."""
+    counts = collections.Counter()
+    devs = []
+    last = {}
+    for i, a in enumerate(seq):
+        o = load_alone(env, a)
+        b = base[a]
+        if okey(o) != okey(b):
+            counts["f:loads:deviates"] += 1
+            if okey(last.get(a, b)) == okey(b):
+                devs.append((i, o, b))
+        else:
+            counts["f:loads:same:" + o[0]] += 1
+            if o[0] == "refused" and o[1] != b[1]:
+                counts["f:refusal-class-differs-from-baseline(not-claimed)"] += 1
+        last[a] = o
+    return devs, counts
+
+
+def f_child_siblings(env, configs, placement, base):
+    """Runs in a fresh process: every element of `configs` (a tuple of sections) as
+    ONE configuration text with these sibling handler sections.
+    -> (deviations [(k, what, observed, expected)], Counter)"""
+    counts = collections.Counter()
+    devs = []
+    for k, atoms in enumerate(configs):
+        want = [base[a] for a in atoms]
+        keys = [okey(o) for o in want]
+        all_ok = all(o[0] == "ok" for o in want)
+        got = load_siblings(env, list(atoms), placement)
+        if got[0] == "ok":
+            counts["f:%s:siblings-accepted" % placement] += 1
+            if not all_ok:
+                devs.append((k, "siblings-accepted-though-one-is-refused-alone", got, keys))
+            elif len(got[1]) != len(want):
+                devs.append((k, "siblings-handler-count", len(got[1]), len(want)))
+            else:
+                for i, (g, w) in enumerate(zip(got[1], want)):
+                    if okey(g) != okey(w):
+                        devs.append((k, "sibling-differs-from-alone", [i, g], [i, w]))
+                        break
+        elif got[0] == "refused":
+            counts["f:%s:siblings-refused" % placement] += 1
+            if all_ok:
+                devs.append((k, "siblings-refused-though-each-is-accepted-alone", got, keys))
+        else:
+            counts["f:%s:siblings-build-raises" % placement] += 1
+            devs.append((k, "siblings-build-raises", got, keys))
+    return devs, counts
+
+
+def isolated(func, *args):
+    """func(*args) in a forked child of this process; the child's process state is
+    thrown away.  -> the (picklable) result."""
+    import pickle
+    import signal
+    import traceback
+    sys.stdout.flush()
+    sys.stderr.flush()
+    r, w = os.pipe()
+    pid = os.fork()
+    if pid == 0:
+        try:
+            os.close(r)
+            signal.setitimer(signal.ITIMER_REAL, 0)
+            try:
+                res = ("ok", func(*args))
+            except BaseException:
+                res = ("error", traceback.format_exc())
+            with os.fdopen(w, "wb") as f:
+                f.write(pickle.dumps(res))
+        finally:
+            os._exit(0)
+    os.close(w)
+    done = False
+    try:
+        with os.fdopen(r, "rb") as f:
+            data = f.read()
+        os.waitpid(pid, 0)
+        done = True
+    finally:
+        if not done:
+            try:
+                os.kill(pid, 9)
+                os.waitpid(pid, 0)
+            except OSError:
+                pass
+    if not data:
+        raise core.HarnessError("C20(f): the isolated process died without a result")
+    st, res = pickle.loads(data)
+    if st != "ok":
+        raise core.HarnessError("C20(f): isolated process failed:\n" + res)
+    return res
+
+
+# baselines: section -> its outcome when it is the first thing a fresh process loads
+_BASE = {}
+BASE_KEY = "f:base|"
+
+
+def judge_baseline(q, base, acc):
+    """The first load of q in a fresh process, against Python's own rendering
+    (the rules of (d))."""
+    style, fmt, arb, fk, df = q
+    case = {"part": "f", "placement": "loads", "sequence": [atom_dict(q)]}
+    ufmt = R.unescape(fmt)
+    tags = {"part": "f", "style": style, "what": "baseline"}
+    acc.cls("f:baseline:" + base[0])
+    if base[0] == "refused":
+        return
+    if base[0] == "build-raises":
+        acc.violation("accepted-format-cannot-build-formatter", case, base, "a handler with a formatter",
+                      tags=dict(tags, kind="accepted-format-cannot-build-formatter", exc=base[1]))
+        return
+    try:
+        ref = ("ok", R.python_render(style, ufmt, df or R.DEFAULT_DATEFORMAT, R.make_record()))
+    except Exception as e:
+        ref = ("raises", type(e).__name__)
+    want_cls = (fk or "logging.Formatter").rsplit(".", 1)[1]
+    if base[1] != want_cls:
+        acc.violation("formatter-class", case, base[1], want_cls, tags=dict(tags, kind="formatter-class"))
+    out = base[2]
+    if out[0] == "raises" and ref[0] == "raises":
+        if not arb:
+            acc.violation("accepted-format-raises-on-ordinary-record", case, out, "a rendering",
+                          tags=dict(tags, kind="accepted-format-raises-on-ordinary-record", exc=out[1]))
+    elif out != ref:
+        acc.violation("rendering-differs", case, out, ref, tags=dict(tags, kind="rendering-differs"))
+
+
+def shard_f0(shard, env, acc):
+    """Baselines of the sections lo..hi-1 of an alphabet, each in its own fresh
+    process; handed to run() through counter keys."""
+    import json
+    _, level, lo, hi = shard
+    for a in h_atoms(level)[lo:hi]:
+        acc.current = {"part": "f", "placement": "loads", "sequence": [atom_dict(a)]}
+        base = tup(isolated(load_alone, env, a))
+        acc.extra["f:fresh-processes"] += 1
+        acc.extra[BASE_KEY + json.dumps([a, base])] = 1
+        acc.ev()
+        if base[0] == "ok":
+            acc.nt()
+        judge_baseline(a, base, acc)
+        acc.sample(lambda: {"part": "f", "section": atom_dict(a), "baseline": base})
+
+
+def collect_baselines(acc):
+    """Moves the baselines out of the counters into _BASE (run() calls this between
+    the two pools; the workers of the second pool inherit _BASE)."""
+    import json
+    for k in [k for k in acc.extra if k.startswith(BASE_KEY)]:
+        a, base = json.loads(k[len(BASE_KEY):])
+        _BASE[tup(a)] = tup(base)
+        del acc.extra[k]
+
+
+F_CONFIRM_MAX = 4
+
+
+def check_f_loads(q, prefixes, env, acc, seq=None):
+    """Fresh process: q, then for every prefix its sections and q again, all alone.
+    EVERY load (of q and of the prefix sections) has to equal that section's
+    baseline."""
+    if seq is None:
+        seq = [q]
+        for pre in prefixes:
+            seq.extend(pre)
+            seq.append(q)
+        replaying = False
+    else:
+        replaying = True
+    acc.current = {"part": "f", "placement": "loads", "q": atom_dict(q), "sequence-length": len(seq)}
+    devs, counts = isolated(f_child_loads, env, seq, _BASE)
+    acc.extra["f:fresh-processes"] += 1
+    for k, v in counts.items():
+        if "not-claimed" in k:
+            acc.extra[k] += v
+        else:
+            acc.cls(k, v)
+    if not replaying:
+        acc.ev(len(prefixes))
+        acc.nt(sum(1 for pre in prefixes if _BASE[q][0] == "ok" or any(_BASE[p][0] == "ok" for p in pre)))
+        for a, b in zip(seq, seq[1:]):
+            # the neighbourhoods a partial-key memo / shared state would bite in
+            if a[:2] == b[:2] and a[2] != b[2] and _BASE[a][0] != _BASE[b][0]:
+                acc.extra["f:class:same-style-and-format-other-arbitrary-verdicts-differ"] += 1
+            if a[1] == b[1] and a[0] != b[0] and okey(_BASE[a]) != okey(_BASE[b]):
+                acc.extra["f:class:same-format-other-style-outcomes-differ"] += 1
+            if a[:3] == b[:3] and a[3:] != b[3:] and okey(_BASE[a]) != okey(_BASE[b]):
+                acc.extra["f:class:same-format-other-formatter-or-dateformat-outcomes-differ"] += 1
+            if a == b:
+                acc.extra["f:class:same-section-again"] += 1
+    confirmed = 0
+    fallback = None
+    for i, obs, exp in devs[:F_CONFIRM_MAX]:
+        x = seq[i]
+        short = seq[max(0, i - 1):i + 1]
+        if not replaying and len(short) < len(seq[:i + 1]):
+            # does the load right before it suffice, in a fresh process?
+            d2, _ = isolated(f_child_loads, env, short, _BASE)
+            acc.extra["f:fresh-processes"] += 1
+            if not any(j == len(short) - 1 for j, _, _ in d2):
+                fallback = fallback or (i, obs, exp)
+                continue
+        else:
+            short = seq[:i + 1]
+        confirmed += 1
+        report_f_loads(acc, short, obs, exp)
+    if fallback and not confirmed:
+        i, obs, exp = fallback
+        report_f_loads(acc, seq[:i + 1], obs, exp)
+    acc.sample(lambda: {"part": "f", "placement": "loads", "q": atom_dict(q), "baseline": _BASE[q],
+                        "loads": len(seq), "deviations": len(devs)})
+
+
+def report_f_loads(acc, seq, obs, exp):
+    x = seq[-1]
+    if len(seq) == 1:
+        differs = "first-load-of-another-fresh-process"
+    elif len(seq) == 2:
+        differs = atoms_differ(seq[0], x)
+    else:
+        differs = "longer-history"
+    acc.violation("outcome-depends-on-earlier-load",
+                  {"part": "f", "placement": "loads", "sequence": [atom_dict(a) for a in seq]}, obs, exp,
+                  tags={"part": "f", "kind": "outcome-depends-on-earlier-load", "placement": "loads",
+                        "differs": differs, "baseline": exp[0], "observed": obs[0], "style": x[0]},
+                  size=1000 * len(seq) + len(repr(seq[-2:])))
+
+
+def check_f_siblings(q, prefixes, placement, env, acc, configs=None):
+    """Fresh process: for every prefix one configuration text with the prefix's
+    sections and q as sibling handler sections."""
+    replaying = configs is not None
+    if configs is None:
+        configs = [tuple(pre) + (q,) for pre in prefixes]
+    acc.current = {"part": "f", "placement": placement, "q": atom_dict(q), "configs": len(configs)}
+    devs, counts = isolated(f_child_siblings, env, configs, placement, _BASE)
+    acc.extra["f:fresh-processes"] += 1
+    for k, v in counts.items():
+        acc.cls(k, v)
+    if not replaying:
+        acc.ev(len(configs))
+        acc.nt(sum(1 for c in configs if any(_BASE[a][0] == "ok" for a in c)))
+    confirmed = 0
+    fallback = None
+    seen = collections.Counter()
+    for k, what, obs, exp in devs:
+        seen[what] += 1
+        if seen[what] > F_CONFIRM_MAX:
+            continue
+        if not replaying and k > 0:
+            d2, _ = isolated(f_child_siblings, env, [configs[k]], placement, _BASE)
+            acc.extra["f:fresh-processes"] += 1
+            if not any(w == what for _, w, _, _ in d2):
+                fallback = fallback or (k, what, obs, exp)
+                continue
+            cfgs = [configs[k]]
+        else:
+            cfgs = configs[:k + 1]
+        confirmed += 1
+        report_f_siblings(acc, cfgs, placement, what, obs, exp)
+    if fallback and not confirmed:
+        k, what, obs, exp = fallback
+        report_f_siblings(acc, configs[:k + 1], placement, what, obs, exp)
+    acc.sample(lambda: {"part": "f", "placement": placement, "q": atom_dict(q), "configs": len(configs),
+                        "deviations": len(devs)})
+
+
+def report_f_siblings(acc, configs, placement, what, obs, exp):
+    c = configs[-1]
+    acc.violation(what, {"part": "f", "placement": placement,
+                         "configs": [[atom_dict(a) for a in cfg] for cfg in configs]}, obs, exp,
+                  tags={"part": "f", "kind": what, "placement": placement,
+                        "differs": atoms_differ(c[-2], c[-1]) if len(configs) == 1 else "longer-history",
+                        "verdicts": "+".join(_BASE[a][0] for a in c)},
+                  size=1000 * len(configs) + len(repr(c)))
+
+
+def f_levels(tier):
+    return ["quick"] if tier == "quick" else ["thorough", "small"]
+
+
+def f0_shards(tier):
+    out = []
+    done = set()
+    for level in f_levels(tier):
+        atoms = h_atoms(level)
+        for lo in range(0, len(atoms), 8):
+            # a section that occurs in two alphabets gets its baseline once
+            if all(a in done for a in atoms[lo:lo + 8]):
+                continue
+            out.append(("f0", level, lo, min(lo + 8, len(atoms))))
+        done.update(atoms)
+    return out
+
+
+def f_shards(tier):
+    """-> shards ('f', level, lo, hi, p1): sections lo..hi-1 of h_atoms(level) as q; p1
+    None = prefixes (p) for every section p; else prefixes (section p1, p) for every p."""
+    level = f_levels(tier)[0]
+    n = len(h_atoms(level))
+    step = 4 if tier == "quick" else 8
+    out = [("f", level, lo, min(lo + step, n), None) for lo in range(0, n, step)]
+    if tier != "quick":
+        m = len(h_atoms("small"))
+        out += [("f", "small", lo, min(lo + 8, m), p1) for p1 in range(m) for lo in range(0, m, 8)]
+    out += [("fl", i) for i in range(len(fl_atoms()))]
+    return out
+
+
+def shard_f(shard, env, acc):
+    _, level, lo, hi, p1 = shard
+    atoms = h_atoms(level)
+    if p1 is None:
+        prefixes = [(p,) for p in atoms]
+        placements = H_PLACEMENTS_QUICK if level == "quick" else H_PLACEMENTS
+    else:
+        prefixes = [(atoms[p1], p) for p in atoms]
+        placements = H_PLACEMENTS_QUICK
+    for q in atoms[lo:hi]:
+        for pl in placements:
+            if pl == "loads":
+                check_f_loads(q, prefixes, env, acc)
+            else:
+                check_f_siblings(q, prefixes, pl, env, acc)
+    acc.extra["f:prefix-length-%d-shards" % (1 if p1 is None else 2)] += 1
+
+
+# (fl) logger sections on a logging tree that another section has configured
+
+FL_NAMES = (PREFIX + ".h", PREFIX + ".h.c")
+FL_LEVELS = (None, "notset", "debug")
+FL_HANDLERS = ([], [0], [1, 3])
+
+
+def fl_atoms():
+    out = []
+    for name in FL_NAMES:
+        for lv in FL_LEVELS:
+            for prop in (None, "false"):
+                for hs in FL_HANDLERS:
+                    out.append({"part": "c", "kind": "logger", "name": name, "propagate": prop,
+                                "level": lv, "handlers": list(hs), "via": "factory"})
+    for lv in FL_LEVELS:
+        for hs in FL_HANDLERS:
+            out.append({"part": "c", "kind": "eventlog", "name": None, "propagate": None,
+                        "level": lv, "handlers": list(hs), "via": "factory"})
+    return out
+
+
+def snapshot_logger(lg):
+    return (lg.level, lg.propagate, [id(h) for h in lg.handlers])
+
+
+def check_fl(p, q, env, acc):
+    case = {"part": "fl", "p": p, "q": q}
+    acc.current = case
+    acc.ev()
+    same = (p["kind"], p["name"]) == (q["kind"], q["name"])
+    relation = "same-logger" if same else "%s-after-%s" % (q["name"] or "root", p["name"] or "root")
+    size = case_size(p) + case_size(q)
+
+    def bad(kind, obs, exp, **tags):
+        t = {"kind": kind, "part": "fl", "relation": relation}
+        t.update(tags)
+        acc.violation(kind, case, obs, exp, tags=t, size=size)
+
+    def level_of(c):
+        return R.DEFAULT_LOGGER_LEVEL if c["level"] is None else R.classify_level(c["level"])[1]
+
+    env.begin()
+    try:
+        st, cfg_p = load(logger_text(env, p))
+        if st == "refused":
+            bad("refused-but-documented", cfg_p, "accepted")
+            return
+        try:
+            lp = cfg_p.loggers[0]()
+        except Exception as e:
+            bad("logger-factory-raises", core.exc_desc(e), "a logger")
+            return
+        snap_p = snapshot_logger(lp)
+        target = logging.getLogger(q["name"]) if q["kind"] == "logger" else logging.getLogger()
+        before = list(target.handlers)
+        st, cfg_q = load(logger_text(env, q))
+        if st == "refused":
+            acc.cls("fl:refused-after-another-section")
+            bad("refused-but-documented", cfg_q, "accepted")
+            return
+        factory = cfg_q.loggers[0]
+        try:
+            lq = factory()
+        except Exception as e:
+            bad("logger-factory-raises", core.exc_desc(e), "a logger")
+            return
+        acc.nt()
+        acc.cls("fl:" + ("same-logger" if same else "other-logger"))
+        if same and snap_p[0] != level_of(q):
+            acc.cls("fl:same-logger-level-changes")
+            if level_of(q) == 0:
+                acc.cls("fl:same-logger-level-back-to-notset")
+        if same and q["kind"] == "logger" and snap_p[1] != (q["propagate"] is None):
+            acc.cls("fl:same-logger-propagate-changes")
+        if lq is not target:
+            bad("wrong-logger", repr(lq), repr(target))
+            return
+        if lq.level != level_of(q):
+            bad("logger-level", lq.level, level_of(q))
+        if q["kind"] == "logger":
+            want = True if q["propagate"] is None else R.boolean(q["propagate"])
+            if lq.propagate != want or type(lq.propagate) is not bool:
+                bad("propagate", lq.propagate, want)
+        hs = list(lq.handlers)
+        new = [h for h in hs if not any(h is b for b in before)]
+        n = len(q["handlers"])
+        if new and hs[-len(new):] != new:
+            bad("new-handlers-not-appended", [type(h).__name__ for h in hs], "new handlers last, in order")
+        if n == 0:
+            if any(not isinstance(h, logging.NullHandler) for h in new):
+                bad("handler-count", [type(h).__name__ for h in new], "no (or only a null) new handler")
+        elif len(new) != n:
+            bad("handler-count", [type(h).__name__ for h in new], n)
+        else:
+            for h, i in zip(new, q["handlers"]):
+                cls, lvl, rendered = expected_handler(i)
+                try:
+                    out = h.format(R.make_record())
+                except Exception as e:
+                    out = core.exc_desc(e)
+                if type(h) is not getattr(env.lh, cls) or h.level != lvl or out != rendered:
+                    bad("handler-differs", [type(h).__name__, h.level, out], [cls, lvl, rendered])
+                    break
+        snap_q = snapshot_logger(lq)
+        try:
+            again = factory()
+        except Exception as e:
+            again = core.exc_desc(e)
+        if again is not lq or snapshot_logger(lq) != snap_q:
+            bad("second-call-changes-logger", repr(again), repr(lq))
+        if lp is not lq and snapshot_logger(lp) != snap_p:
+            bad("other-logger-disturbed", snapshot_logger(lp)[:2], snap_p[:2])
+        acc.sample(lambda: {"part": "fl", "p": p, "q": q, "level": lq.level,
+                            "handlers": [type(h).__name__ for h in lq.handlers]})
+        del lp, lq, hs, new, before, target, again
+    finally:
+        env.end()
+
+
+# ----------------------------------------------------------------------------
 # shards, run, replay
 
 def shard_func(shard, acc):
     what = shard[0]
     with Env() as env:
+        if what == "f0":
+            shard_f0(shard, env, acc)
+            return acc
+        if what == "f":
+            shard_f(shard, env, acc)
+            return acc
+        if what == "fl":
+            atoms = fl_atoms()
+            for p in atoms:
+                check_fl(p, atoms[shard[1]], env, acc)
+            return acc
         if what == "a":
             for s in level_space():
                 check_a({"part": "a", "value": s}, env, acc)
@@ -1212,10 +1880,27 @@ def run(tier):
              "factories, date formats, rendered against Python's own rendering; (e) BFS over the canonical "
              "implementation state of 1-%d file handlers under {call factory j, reopenFiles, closeFiles, "
              "drop last reference j} plus every operation sequence of length %s with the registry model "
-             "in lock step.  Non-trivial = (b)/(c) accepted configuration with >= 1 handler, (d) format "
+             "in lock step; (f) HISTORIES of handler sections: alphabet = every style x every format text "
+             "(each style's reference to a known / an unknown field, the 8 mixtures of the three reference "
+             "syntaxes [quick: the 4 with at most one unknown field], a field-less text, an asctime text) x arbitrary-fields [x formatter factory x "
+             "dateformat]; baseline of a section = its outcome (verdict, formatter class, rendering) as the "
+             "first load of a fresh process, held against Python's rendering; for every section q a fresh "
+             "process loads q and then for every prefix %s of the alphabet the prefix's sections and q again, "
+             "each alone - every load must equal its section's baseline - and another fresh process loads "
+             "prefix + q as sibling handler sections of one text (%s; accepted iff each baseline is "
+             "accepted, every handler like its baseline) - every ordered pair of sections as consecutive "
+             "loads and as siblings; "
+             "(fl) every ordered pair of %d logger sections (2 names parent/child + eventlog x level x "
+             "propagate x handlers): q's factory called on the logging tree p's factory has just "
+             "configured, no reset in between: level, propagate, exactly q's handlers added, other logger "
+             "untouched.  Non-trivial = (b)/(c) accepted configuration with >= 1 handler, (d) format "
              "with >= 1 field reference in its style, (e) sequence with a factory call followed by a "
-             "registry operation (distinct cases; shards partition each space)."
-             % (len(R.FIELDS), 3, "4" if quick else "6 (5 on two of the four 3-handler configurations)"),
+             "registry operation, (f) history in which a section is accepted, (fl) both sections accepted "
+             "(distinct cases; shards partition each space)."
+             % (len(R.FIELDS), 3, "4" if quick else "6 (5 on two of the four 3-handler configurations)",
+                "(p)" if quick else "(p), and (p1, p2) over the %d-section sub-alphabet" % len(h_atoms("small")),
+                "inside one <logger>" if quick else "inside one <logger>, and as top-level sections",
+                len(fl_atoms())),
         bounds={"levels": {"names": [n for n, _ in R.LEVEL_TABLE], "integers": [-2, 52]},
                 "logfile_product": {"path": B_PATHS, "max-size": B_MAX, "old-files": B_OLD, "when": B_WHEN,
                                     "interval": B_INT, "delay": B_DELAY, "encoding": B_ENC, "level": B_LEVEL},
@@ -1228,7 +1913,15 @@ def run(tier):
                 "formatters": FORMATTERS, "dateformats": DATEFORMATS,
                 "e_slot_kinds": KIND_NAMES,
                 "e_sequences": [[k, d] for k, d in e_configs(tier)],
-                "e_bfs_depth": 4 if quick else 6},
+                "e_bfs_depth": 4 if quick else 6,
+                "f_formats": h_formats(full=not quick), "f_styles": list(R.STYLES), "f_formatters": list(H_FORMATTERS),
+                "f_dateformats": [None, H_DATEFORMAT],
+                "f_sections": len(h_atoms("quick" if quick else "thorough")),
+                "f_prefix_lengths": [1] if quick else [1, 2],
+                "f_sections_for_prefix_length_2": 0 if quick else len(h_atoms("small")),
+                "f_placements": list(H_PLACEMENTS_QUICK if quick else H_PLACEMENTS),
+                "fl_sections": len(fl_atoms()), "fl_names": list(FL_NAMES) + ["<eventlog>"],
+                "fl_levels": list(FL_LEVELS), "fl_handlers": [list(h) for h in FL_HANDLERS]},
         assumptions=[
             "reference model vz/ref/logmodel.py (level table, <logfile> decision table, registry model) "
             "is the documented behaviour; 'rendering in the configured format and style' = what "
@@ -1242,7 +1935,20 @@ def run(tier):
             "without handler sections may carry a NullHandler",
             "syslog / win32-eventlog handlers are not created; http-logger and email-notifier handlers "
             "are created but never emit",
+            "(f): 'fresh process' = a fork of a pool worker that has imported ZConfig and loaded the schema "
+            "but never a configuration; the histories of one (section q, placement) run one after the other "
+            "in the same fresh process (a later history has the earlier ones behind it as well), a deviation "
+            "is re-run on its own in another fresh process; the exception class of a refusal may depend on "
+            "history (counted, not claimed)",
+            "(fl): handlers already on a logger before a factory call may stay (the component adds, it does "
+            "not replace); only what the call adds is compared with the section",
         ])
+    # (f)/(fl) first and in a pool of their own: these workers never load a
+    # configuration themselves (every history runs in a forked child of theirs),
+    # so every history starts in a process without any logger-component past
+    core.pmap(shard_func, f0_shards(tier), run.acc)
+    collect_baselines(run.acc)
+    core.pmap(shard_func, f_shards(tier), run.acc)
     core.pmap(shard_func, all_shards(tier), run.acc)
     acc = run.acc
     cl = acc.clauses
@@ -1260,6 +1966,30 @@ def run(tier):
     run.require(k.get("d:rendered", 0) > 2000, "few formats rendered")
     run.require(sum(v for c, v in k.items() if c.startswith("d:refused")) > 500, "few formats refused")
     run.require(acc.states >= 10 and acc.transitions >= 100, "BFS of (e) too small")
+    x = acc.extra
+    n_atoms = len(h_atoms("quick" if quick else "thorough"))
+    n_pl = len(H_PLACEMENTS_QUICK if quick else H_PLACEMENTS)
+    run.require(x.get("f:fresh-processes", 0) >= n_atoms * (1 + n_pl),
+                "(f) fewer fresh processes than sections x (baseline + placements)")
+    run.require(not any(c.startswith(BASE_KEY) for c in x), "(f) baselines left in the counters")
+    run.require(k.get("f:baseline:ok", 0) >= 20 and k.get("f:baseline:refused", 0) >= 20,
+                "(f) baselines do not cover both verdicts")
+    run.require(k.get("f:loads:same:ok", 0) > 1000 and k.get("f:loads:same:refused", 0) > 1000,
+                "(f) few histories of separate loads")
+    for pl in (H_PLACEMENTS_QUICK if quick else H_PLACEMENTS)[1:]:
+        run.require(k.get("f:%s:siblings-accepted" % pl, 0) > 500
+                    and k.get("f:%s:siblings-refused" % pl, 0) > 500,
+                    "(f) few sibling-section configurations (%s)" % pl)
+    for c, least in (("f:class:same-style-and-format-other-arbitrary-verdicts-differ", 10),
+                     ("f:class:same-format-other-style-outcomes-differ", 200),
+                     ("f:class:same-format-other-formatter-or-dateformat-outcomes-differ", 8),
+                     ("f:class:same-section-again", n_atoms)):
+        run.require(x.get(c, 0) >= least, "(f) history class %s: %d < %d" % (c, x.get(c, 0), least))
+    if not quick:
+        run.require(x.get("f:prefix-length-2-shards", 0) > 0, "(f) no prefixes of length 2")
+    for c in ("fl:same-logger", "fl:other-logger", "fl:same-logger-level-changes",
+              "fl:same-logger-level-back-to-notset", "fl:same-logger-propagate-changes"):
+        run.require(k.get(c, 0) >= 10, "(fl) history class %s rarely seen" % c)
     return run
 
 
@@ -1277,6 +2007,23 @@ def replay(body):
                 check_c(case, env, acc)
             elif part == "d":
                 check_d(case, env, acc)
+            elif part == "f":
+                if case["placement"] == "loads":
+                    seq = [atom_tuple(a) for a in case["sequence"]]
+                    used = set(seq)
+                else:
+                    configs = [tuple(atom_tuple(a) for a in c) for c in case["configs"]]
+                    used = set(a for c in configs for a in c)
+                for a in sorted(used, key=repr):
+                    if a not in _BASE:
+                        _BASE[a] = tup(isolated(load_alone, env, a))
+                        judge_baseline(a, _BASE[a], acc)
+                if case["placement"] == "loads":
+                    check_f_loads(seq[-1], None, env, acc, seq=seq)
+                else:
+                    check_f_siblings(configs[-1][-1], None, case["placement"], env, acc, configs=configs)
+            elif part == "fl":
+                check_fl(case["p"], case["q"], env, acc)
             elif part == "e":
                 kinds = case["slots"]
                 ops = [list(o) for o in case["ops"]]
